@@ -12,6 +12,11 @@
 (* identity AVP counts only with flag byte 0x40 and the configured PEER       *)
 (* identity, and the number of counted AVPs must be exactly the expected one *)
 (* (a duplicate invalidates the message as a missing one does).              *)
+(* The design (Valid) also demands what the count alone does not: exactly    *)
+(* one counted Origin-Host and exactly one counted Origin-Realm.  Without it  *)
+(* (ValidCountOnly, the tree before F-C06-foreign-identity-counted) another   *)
+(* repeatable AVP makes up for an identity AVP that did not count: a CER with *)
+(* a foreign Origin-Host and two Host-IP-Address AVPs was valid.             *)
 (***************************************************************************)
 EXTENDS Naturals, Sequences, FiniteSets
 
@@ -25,7 +30,7 @@ CntC(s, c) == Cardinality({i \in 1..Len(s) : s[i].c = c})
 Ident(s) == Cnt(s, OkOH) + Cnt(s, OkOR)
 Capx(s) == Ident(s) + CntC(s, "HIP") + CntC(s, "VID") + CntC(s, "PN")
 
-Valid(m) ==
+ValidCountOnly(m) ==
     LET s == m.avps
         osi == CntC(s, "OSI")
     IN CASE m.kind = "CER" -> m.hflags = 128 /\ Capx(s) = 5 /\ osi <= 7
@@ -34,6 +39,8 @@ Valid(m) ==
          [] m.kind = "DWA" -> m.hflags = 0 /\ Ident(s) + Cnt(s, OkRC) = 3 /\ osi <= 1
          [] m.kind = "DPR" -> m.hflags = 128 /\ Ident(s) + Cnt(s, OkDC) = 3
          [] OTHER          -> m.hflags = 0 /\ Ident(s) + Cnt(s, OkRC) = 3
+
+Valid(m) == ValidCountOnly(m) /\ Cnt(m.avps, OkOH) = 1 /\ Cnt(m.avps, OkOR) = 1
 
 (* ---- the enumerated universe: the standard message of each kind and every single mutation of it *)
 A(c, d) == [c |-> c, fl |-> 64, d |-> d]
@@ -57,13 +64,20 @@ Kinds == {"CER", "CEA", "DWR", "DWA", "DPR", "DPA"}
 \* (the R bit is what makes a message a request: the kind fixes it; the other bits vary)
 HFlags(kind) == IF kind \in Requests THEN {128, 192, 160, 144} ELSE {0, 64, 32, 16}
 Universe == {[kind |-> k, hflags |-> h, avps |-> s] : k \in Kinds, h \in {0, 16, 32, 64, 128, 144, 160, 192}, s \in UNION {Mutations(Std(kk)) : kk \in Kinds}}
-Focus == {m \in Universe : m.hflags \in HFlags(m.kind) /\ m.avps \in Mutations(Std(m.kind))}
+Focus1 == {m \in Universe : m.hflags \in HFlags(m.kind) /\ m.avps \in Mutations(Std(m.kind))}
+\* every pair of mutations (a second mutation applied to a mutated message), under the standard header flag byte
+Mutations2(s) == UNION {Mutations(t) : t \in Mutations(s)}
+Focus2 == UNION {{[kind |-> k, hflags |-> IF k \in Requests THEN 128 ELSE 0, avps |-> s] : s \in Mutations2(Std(k))} : k \in Kinds}
+Focus == Focus1 \cup Focus2
 
 (* model-level facts *)
 StdValid == \A k \in Kinds : Valid([kind |-> k, hflags |-> IF k \in Requests THEN 128 ELSE 0, avps |-> Std(k)])
 \* only the configured peer's identity is accepted
+OnlyPeerFor(V(_)) == \A m \in Focus : V(m) => (\E i \in 1..Len(m.avps) : m.avps[i].c = "OH" /\ m.avps[i].d = "peer")
+                                              /\ (\E i \in 1..Len(m.avps) : m.avps[i].c = "OR" /\ m.avps[i].d = "peer")
+OnlyPeerHistoric == OnlyPeerFor(ValidCountOnly)          \* FALSE: the vacuity self-test of the check
 OnlyPeer == \A m \in Focus : Valid(m) => (\E i \in 1..Len(m.avps) : m.avps[i].c = "OH" /\ m.avps[i].d = "peer")
                                         /\ (\E i \in 1..Len(m.avps) : m.avps[i].c = "OR" /\ m.avps[i].d = "peer")
 \* an identity AVP of another node never makes a message valid, wherever it stands
-NoForeignIdentity == \A m \in Focus : (\E i \in 1..Len(m.avps) : m.avps[i].c \in {"OH", "OR"} /\ m.avps[i].d # "peer" /\ Len(m.avps) = Len(Std(m.kind))) => ~Valid(m)
+NoForeignIdentity == \A m \in Focus : (\E c \in {"OH", "OR"} : \A i \in 1..Len(m.avps) : m.avps[i].c = c => m.avps[i].d # "peer") => ~Valid(m)
 =============================================================================
